@@ -20,7 +20,13 @@
 #include <fcppt/parse/skipper/basic_literal.hpp>
 #include <fcppt/parse/skipper/epsilon.hpp>
 
+#include <cinttypes>
+#include <codecvt>
+#include <cstdio>
+#include <cstdlib>
 #include <fstream>
+#include <locale>
+#include <map>
 #include <sstream>
 #include <streambuf>
 #include <string>
@@ -92,6 +98,11 @@ struct checker
   oracle<Ch> o;
   std::string e;
   bool ok = true;
+  // offsets of a wide file stream with a variable-width external encoding are positions in the FILE (opaque to the
+  // reader): there only their consistency is judged - the same character index always has the same offset, different
+  // indexes have different offsets - next to line, column, the characters read and the exactness of every restore
+  bool opaque_offsets = false;
+  std::map<std::size_t, std::streamoff> seen_offsets;
 
   checker(Str const &text, stream_t &s, std::string const &entry) : t(text), st(s), o{text}, e(entry) {}
 
@@ -104,7 +115,17 @@ struct checker
   {
     pos_t p = st.get_position();
     VF_COUNT("stream/positions-checked");
-    if (static_cast<std::size_t>(std::streamoff(p.pos())) != i)
+    if (opaque_offsets)
+    {
+      std::streamoff const off = std::streamoff(p.pos());
+      auto const ins = seen_offsets.emplace(i, off);
+      if (!ins.second && ins.first->second != off)
+        fail(std::string(ctx) + "/offset-not-stable", "character index " + std::to_string(i) + " had offset " + std::to_string(ins.first->second) + ", now " + std::to_string(off));
+      for (auto const &kv : seen_offsets)
+        if (kv.first != i && kv.second == off)
+          fail(std::string(ctx) + "/offset-not-injective", "character indexes " + std::to_string(kv.first) + " and " + std::to_string(i) + " share offset " + std::to_string(off));
+    }
+    else if (static_cast<std::size_t>(std::streamoff(p.pos())) != i)
       fail(std::string(ctx) + "/offset", "offset got=" + std::to_string(std::streamoff(p.pos())) + " want=" + std::to_string(i));
     if (!p.location().has_value())
       fail(std::string(ctx) + "/location-missing", "no location");
@@ -634,13 +655,199 @@ void failing_streams()
     }
 }
 
+
+// ------------------------------------------------------------------ devices that can only be positioned absolutely
+// The random interleaving of reads, position queries and restores (the loop of the file world) over any stream.
+template <class Ch>
+void interleave(checker<Ch> &c, fcppt::parse::detail::stream<Ch> &st, vf::rng &g, unsigned steps)
+{
+  std::vector<std::pair<std::size_t, fcppt::parse::position<Ch>>> mine;
+  std::size_t k = 0;
+  for (unsigned q = 0; q < steps && c.ok; ++q)
+  {
+    switch (g.below(4))
+    {
+    case 0:
+    case 1:
+      k = c.read(k, "interleaved");
+      break;
+    case 2:
+      mine.emplace_back(k, c.check_position(k, "interleaved"));
+      break;
+    case 3:
+      if (!mine.empty())
+      {
+        auto const &m = mine[g.below(mine.size())];
+        st.set_position(m.second);
+        k = m.first;
+        VF_COUNT("stream/restores");
+        // directly after a restore the position is the saved one again
+        c.check_position(k, "after-restore");
+      }
+      break;
+    }
+  }
+}
+
+// A device whose seekoff only answers "where am I" (offset 0 from the current position) and refuses every relative
+// seek, while seekpos (absolute positioning with a position obtained earlier) works: the behaviour of a wide
+// std::filebuf with a variable-width encoding, as a test double for both character types.
+template <class Ch>
+struct posonly_buf : fault_buf<Ch>
+{
+  using base = fault_buf<Ch>;
+  using typename base::off_type;
+  using typename base::pos_type;
+  explicit posonly_buf(std::basic_string<Ch> d) : base(d, d.size(), 0) {}
+  pos_type seekoff(off_type off, std::ios_base::seekdir dir, std::ios_base::openmode m) override
+  {
+    if (off == 0 && dir == std::ios_base::cur)
+      return base::seekoff(off, dir, m);
+    ++relative_seeks_refused;
+    return pos_type(off_type(-1));
+  }
+  pos_type seekpos(pos_type p, std::ios_base::openmode m) override { return base::seekoff(off_type(p), std::ios_base::beg, m); }
+  unsigned relative_seeks_refused = 0;
+};
+
+template <class Ch>
+void absolute_only_devices(std::uint64_t total)
+{
+  using Str = std::basic_string<Ch>;
+  std::string e = std::string("stream<") + cn<Ch>() + ">/seekpos-only-device";
+  if (!vf::entry_enabled(e))
+    return;
+  vf::set_entry(e);
+  std::uint64_t per = total / vf::opts().nparts + 1;
+  Ch const alpha[6] = {Ch('a'), Ch('\n'), Ch(' '), Ch('b'), Ch('\n'), Ch('c')};
+  for (std::uint64_t h = 0; h < per; ++h)
+  {
+    vf::rng g(vf::seed_for(e, h));
+    std::size_t len = g.below(24) + 1;
+    Str t;
+    for (std::size_t k = 0; k < len; ++k)
+      t += alpha[g.below(6)];
+    if (!vf::begin_case("seed=%" PRIu64 " part=%u h=%" PRIu64 " text=\"%s\"", vf::opts().seed, vf::opts().part, h, narrow_show(t).c_str()))
+      continue;
+    vf::sample_case(1);
+    vf::note_distinct(vf::hash_mix(vf::hash_str(e), vf::hash_bytes(t.data(), t.size() * sizeof(Ch))));
+    posonly_buf<Ch> buf(t);
+    std::basic_istream<Ch> is(&buf);
+    fcppt::parse::detail::stream<Ch> st{fcppt::reference_to_base<std::basic_istream<Ch>>(fcppt::make_ref(is))};
+    checker<Ch> c(t, st, e);
+    try
+    {
+      interleave<Ch>(c, st, g, static_cast<unsigned>(3 * len + 10));
+    }
+    catch (fcppt::parse::detail::exception<Ch> const &)
+    {
+      c.fail("restore-refused", "set_position / get_position gave up on a device that supports absolute positioning");
+    }
+    VF_COUNT("stream/seekpos-only-interleavings");
+  }
+}
+
+// Wide file streams reading UTF-8 (std::wifstream with the C.utf8 locale's codecvt, or std::codecvt_utf8): the external
+// encoding has a variable width, the texts contain 1-, 2-, 3- and 4-byte characters.
+inline void utf8_append(std::string &out, char32_t c)
+{
+  if (c < 0x80)
+    out += static_cast<char>(c);
+  else if (c < 0x800)
+  {
+    out += static_cast<char>(0xC0 | (c >> 6));
+    out += static_cast<char>(0x80 | (c & 0x3F));
+  }
+  else if (c < 0x10000)
+  {
+    out += static_cast<char>(0xE0 | (c >> 12));
+    out += static_cast<char>(0x80 | ((c >> 6) & 0x3F));
+    out += static_cast<char>(0x80 | (c & 0x3F));
+  }
+  else
+  {
+    out += static_cast<char>(0xF0 | (c >> 18));
+    out += static_cast<char>(0x80 | ((c >> 12) & 0x3F));
+    out += static_cast<char>(0x80 | ((c >> 6) & 0x3F));
+    out += static_cast<char>(0x80 | (c & 0x3F));
+  }
+}
+
+void wide_utf8_files(std::uint64_t total)
+{
+  std::string e = "stream<wchar_t>/utf8-file";
+  if (!vf::entry_enabled(e))
+    return;
+  vf::set_entry(e);
+  std::uint64_t per = total / vf::opts().nparts + 1;
+  wchar_t const alpha[10] = {L'a', L'\n', L' ', static_cast<wchar_t>(0xE9), static_cast<wchar_t>(0x20AC), static_cast<wchar_t>(0x1F600),
+                             L'\n', static_cast<wchar_t>(0x010A), static_cast<wchar_t>(0x200A), L'b'};
+  char const *scratch = std::getenv("VERIF_SCRATCH");
+  std::string dir = scratch ? scratch : "/tmp";
+  if (std::system(("mkdir -p '" + dir + "'").c_str()) != 0)
+    return;
+  std::string const path = dir + "/c12_text_utf8." + std::to_string(vf::opts().part) + ".txt";
+  for (std::uint64_t h = 0; h < per; ++h)
+  {
+    vf::rng g(vf::seed_for(e, h));
+    std::size_t len = g.below(40) + 1;
+    std::wstring t;
+    std::string bytes;
+    bool multibyte = false;
+    for (std::size_t k = 0; k < len; ++k)
+    {
+      wchar_t const ch = alpha[g.below(10)];
+      t += ch;
+      utf8_append(bytes, static_cast<char32_t>(ch));
+      multibyte = multibyte || static_cast<unsigned long>(ch) >= 0x80;
+    }
+    bool const facet_std = (h & 1U) != 0; // alternate between the locale's own facet and std::codecvt_utf8
+    if (!vf::begin_case("seed=%" PRIu64 " part=%u h=%" PRIu64 " facet=%s text=\"%s\"", vf::opts().seed, vf::opts().part, h,
+                        facet_std ? "codecvt_utf8" : "C.utf8", narrow_show(t).c_str()))
+      continue;
+    vf::sample_case(1);
+    vf::note_distinct(vf::hash_mix(vf::hash_str(e), vf::hash_bytes(t.data(), t.size() * sizeof(wchar_t))));
+    {
+      std::ofstream out(path, std::ios::binary | std::ios::trunc);
+      out.write(bytes.data(), static_cast<std::streamsize>(bytes.size()));
+    }
+    std::wifstream in;
+#pragma GCC diagnostic push
+#pragma GCC diagnostic ignored "-Wdeprecated-declarations"
+    in.imbue(facet_std ? std::locale(std::locale::classic(), new std::codecvt_utf8<wchar_t>) : std::locale("C.utf8"));
+#pragma GCC diagnostic pop
+    in.open(path, std::ios::binary);
+    if (!in.is_open())
+    {
+      vf::count("stream/utf8-file/could-not-open");
+      continue;
+    }
+    fcppt::parse::detail::stream<wchar_t> st{fcppt::reference_to_base<std::wistream>(fcppt::make_ref(in))};
+    checker<wchar_t> c(t, st, e);
+    c.opaque_offsets = true;
+    try
+    {
+      interleave<wchar_t>(c, st, g, static_cast<unsigned>(3 * len + 10));
+    }
+    catch (fcppt::parse::detail::exception<wchar_t> const &)
+    {
+      c.fail("restore-refused", "set_position / get_position gave up on a wide UTF-8 file stream");
+    }
+    VF_COUNT("stream/utf8-file-interleavings");
+    if (multibyte)
+      VF_COUNT("stream/utf8-file-with-multibyte-characters");
+  }
+  std::remove(path.c_str());
+}
+
 void body()
 {
   for (char const *b : {"stream/positions-checked", "stream/reads", "stream/reads-at-eof", "stream/restores",
                         "stream/rewind-across-newline", "stream/restore-directly-after-eof-read", "stream/double-restore",
                         "stream/interleavings", "stream/messages-checked", "stream/messages-at-eof",
                         "stream/file-interleavings", "stream/failing/bad-stream-reported", "stream/failing/plain-eof",
-                        "stream/failing/entry-point-runs", "stream/failing/rewind-after-bad", "stream/failing/unseekable-rewind", "stream/external/eofbit-only", "stream/external/failbit-only"})
+                        "stream/failing/entry-point-runs", "stream/failing/rewind-after-bad", "stream/failing/unseekable-rewind", "stream/external/eofbit-only", "stream/external/failbit-only",
+                        "stream/seekpos-only-interleavings", "stream/utf8-file-interleavings", "stream/utf8-file-with-multibyte-characters"})
     vf::require_bucket(b);
   exhaustive<char>(vf::tier<unsigned>(7, 12));
   exhaustive<wchar_t>(vf::tier<unsigned>(6, 10));
@@ -651,6 +858,9 @@ void body()
   random_texts<char>(vf::tier<std::uint64_t>(600, 20000), true);
   failing_streams<char>();
   failing_streams<wchar_t>();
+  absolute_only_devices<char>(vf::tier<std::uint64_t>(800, 40000));
+  absolute_only_devices<wchar_t>(vf::tier<std::uint64_t>(800, 40000));
+  wide_utf8_files(vf::tier<std::uint64_t>(800, 40000));
 }
 }
 
